@@ -19,8 +19,9 @@ import sys
 # groups of functions that hand-written models transcribe (none of them is covered by a translator)
 GROUPS: dict[str, list[tuple[str, str]]] = {
     # _build_evaluator / _build_vector_evaluator / the loop of _build_evaluator_iterative are translated whole (py2lean_build.py -> Generated/BuildStep, Props/BuildTie)
-    "compile": [("core/compiler.py", n) for n in ("compile_expression", "_param_value",
-                                                   "compile_to_dict_function", "CompiledExpression")],
+    # compile_expression, _param_value, compile_to_dict_function, CompiledExpression are translated (py2lean_entry.py);
+    # _compile_cached and _estimate_tree_depth by py2lean_spine.py
+    "compile": [],
     "jacobian": [("core/compiler.py", n) for n in ("compile_gradient", "_compile_vectorized_power_gradient",
                                                     "_compile_vectorized_unary_gradient")]
                 + [("core/autodiff.py", n) for n in ("compile_jacobian", "_is_scaled_variable_pattern")],
@@ -164,8 +165,12 @@ def expected(repo: str, prop: str) -> str:
         out.append(f"theorem {nm}_anchor : {nm} = \"{fingerprint(repo, file, qual)}\" := rfl")
     out.append("")
     out.append(f"/-- every function the model of {prop} transcribes (and no translator covers) is the one it was read from -/")
-    out.append("theorem anchors : " + " ∧ ".join(f"{nm} = \"{fingerprint(repo, f, q)}\"" for (f, q), nm in zip(ANCHORS[prop], names)) + " :=")
-    out.append("  ⟨" + ", ".join(f"{nm}_anchor" for nm in names) + "⟩" if len(names) > 1 else f"  {names[0]}_anchor")
+    if not names:
+        # every function the model of this property was read from is covered by a translator: nothing is left to anchor
+        out.append("theorem anchors : True := trivial")
+    else:
+        out.append("theorem anchors : " + " ∧ ".join(f"{nm} = \"{fingerprint(repo, f, q)}\"" for (f, q), nm in zip(ANCHORS[prop], names)) + " :=")
+        out.append("  ⟨" + ", ".join(f"{nm}_anchor" for nm in names) + "⟩" if len(names) > 1 else f"  {names[0]}_anchor")
     out.append("")
     out.append(f"end Optyx.Props.Pins{prop}")
     return "\n".join(out) + "\n"
